@@ -129,6 +129,7 @@ void LG_flush_log(LG* self) __CPROVER_assigns(g_flush_calls) __CPROVER_ensures(g
 void MEMCPY_LEVEL(addr_t wb, LogLevel lvl) __CPROVER_assigns() __CPROVER_ensures(1);
 #define ATOMIC_LOAD_valid(s, mo) ((s)->valid)
 #define DROPPING(q) ((q) == QT_BoundedDropping || (q) == QT_UnboundedDropping)
+size_t INITIAL_QUEUE_CAPACITY, UNBOUNDED_QUEUE_MAX_CAPACITY;   /* frontend options: any values */
 '''
 
 LS_RULES = ENUM_RULES + [
@@ -139,6 +140,8 @@ LS_RULES = ENUM_RULES + [
     (r'detail::rdtsc\(\)', 'CLOCK_READ()', 1), (r'detail::get_timestamp_ns<std::chrono::system_clock>\(\)', 'CLOCK_READ()', 1), (r'user_clock->now\(\)', 'CLOCK_READ()', 1),
     (r'detail::get_local_thread_context<frontend_options_t>\(\)', 'GET_LOCAL_THREAD_CONTEXT()', 1),
     (r'frontend_options_t::queue_type', 'QUEUE_TYPE'), (r'frontend_options_t::blocking_queue_retry_interval_ns', 'RETRY_INTERVAL_NS'),
+    # not used by the pinned log_statement: present so that a change which consults them is decided, not an extraction break (seed C09-H1)
+    (r'\busing_unbounded_queue\b', '(QUEUE_TYPE == QT_UnboundedBlocking || QUEUE_TYPE == QT_UnboundedDropping)', '?'), (r'frontend_options_t::initial_queue_capacity', 'INITIAL_QUEUE_CAPACITY', '?'), (r'frontend_options_t::unbounded_queue_max_capacity', 'UNBOUNDED_QUEUE_MAX_CAPACITY', '?'),
     (r'std::this_thread::sleep_for\s*\(\s*std::chrono::nanoseconds\s*\{\s*RETRY_INTERVAL_NS\s*\}\s*\)\s*;', 'SLEEP_RETRY();', 1),
     (r'thread_context->get_spsc_queue<QUEUE_TYPE>\(\)\s*\.\s*finish_and_commit_write\(total_size\)', 'Q_finish_and_commit_write(total_size)', 1),
     (r'this->flush_log\(\)', 'LG_flush_log(self)', 1),
